@@ -328,6 +328,11 @@ def main(argv: list[str]) -> int:
     if a.replay:
         body = json.load(open(a.replay if os.path.isabs(a.replay) else os.path.join(VERIF, a.replay)))
         ctx = Ctx(pid, tier, seed, lean)
+        if isinstance(body.get("input"), dict) and body["input"].get("witness_script"):
+            wr = subprocess.run(["/venv/bin/python", os.path.join(VERIF, body["input"]["witness_script"])], cwd=VERIF,
+                                env=dict(os.environ, FRAME_REPO=REPO, PYTHONPATH=REPO))
+            print("REPLAY witness exit", wr.returncode)
+            return 1 if wr.returncode == 1 else 0
         mod.replay(ctx, body)
         for f in ctx.spec_failures:
             print("REPLAY spec-failure:", f["clause"], json.dumps(f["detail"], default=str)[:400])
@@ -366,10 +371,39 @@ def main(argv: list[str]) -> int:
             traceback.print_exc()
             return 2
 
+    # corpus of past defects: every finding of this property (open or fixed) has a stand-alone witness script
+    # (exit 1 = the defect is present).  A fixed defect that shows again is a violation; an open one is announced.
+    witness_known: set[str] = set()
+    for k in load_known():
+        if k.get("property") != pid or not k.get("witness_script"):
+            continue
+        wpath = os.path.join(VERIF, k["witness_script"])
+        try:
+            wr = subprocess.run(["/venv/bin/python", wpath], cwd=VERIF, capture_output=True, text=True, timeout=600,
+                                env=dict(os.environ, FRAME_REPO=REPO, PYTHONPATH=REPO))
+        except Exception as ex:
+            ctx.notes.append(f"witness {k['witness_script']} could not be run: {ex}")
+            continue
+        ctx.evaluations += 1
+        ctx.streams["witness-corpus"] = ctx.streams.get("witness-corpus", 0) + 1
+        if wr.returncode == 1:
+            if k.get("status") == "open":
+                witness_known.add(k["id"])
+            else:
+                ctx.spec_fail("regression:" + k["id"], {"witness_script": k["witness_script"]},
+                              {"output": (wr.stdout + wr.stderr)[-600:], "was_fixed_in": k.get("commit")}, size=0)
+        elif wr.returncode != 0:
+            ctx.notes.append(f"witness {k['witness_script']} exited {wr.returncode}: {(wr.stdout + wr.stderr)[-200:]}")
+        elif k.get("status") == "open":
+            ctx.notes.append(f"open finding {k['id']}: its witness no longer reproduces")
+
     known = [k for k in load_known() if k.get("status") == "open" and k.get("property") == pid]
     known_ids = {k["id"]: k for k in known}
     violations = 0
     printed_known = set()
+    for fid in sorted(witness_known):
+        printed_known.add(fid)
+        print(f"KNOWN-FINDING: property={pid} {fid}: {known_ids[fid]['what']}")
     n = 0
     new_failures = []
     for f in sorted(ctx.spec_failures, key=lambda f: f["size"]):
